@@ -24,7 +24,7 @@ func ruleConfFuture() *Rule {
 			"(transitively) store to r.configurationResponseCh, and carries r.configuration as read after the call that applies the entry. " +
 			"Where the slot is answered with an error (leadership ends, Stop) the answer lies on the side of a comparison r.configuration.Index > r.commitIndex, the committed side answers successfully (D42). " +
 			"AddServer's no-change shortcut is reached only where Members[id] == address (D43). appendConfiguration in AddServer/RemoveServer lies behind a voter-exists predicate over the new configuration (D44).",
-		Floor: 6,
+		Floor: 7,
 		Run: func(p *Program) []Obligation {
 			const fname = "(*Raft).applyLoop"
 			fn := p.Func(fname)
@@ -174,6 +174,62 @@ func ruleConfFuture() *Rule {
 					keyC := "the configuration future's success answer goes to the channel pending before the entry was applied, in " + fname
 					keyV := "the configuration future's success answer carries the configuration read after the entry was applied, in " + fname
 					chLoad := isLoadOf(c.Common().Args[0], chFld)
+					if phi, isPhi := c.Common().Args[0].(*ssa.Phi); isPhi && chLoad == nil {
+						// nil on the paths on which this entry is not the pending change's, the slot's value on the others
+						for _, e := range phi.Edges {
+							if k, isK := e.(*ssa.Const); isK && k.IsNil() {
+								continue
+							}
+							if l := isLoadOf(e, chFld); l != nil && chLoad == nil {
+								chLoad = l
+							} else {
+								chLoad = nil
+								break
+							}
+						}
+					}
+					// (D46) the slot is taken for THIS entry only if this entry is the pending change's: the apply loop also
+					// applies older configuration entries while a change is pending (after a restart, lastApplied is behind)
+					if chLoad != nil {
+						keyE := "the configuration future is answered by the entry of the pending change only, in " + fname
+						entryIdx, cfgIdx := p.Field("LogEntry.Index"), p.Field("Configuration.Index")
+						tied := false
+						for _, bb := range fn.Blocks {
+							iff, isIf := bb.Instrs[len(bb.Instrs)-1].(*ssa.If)
+							if !isIf {
+								continue
+							}
+							bo, isBo := iff.Cond.(*ssa.BinOp)
+							if !isBo || bo.Op != token.EQL {
+								continue
+							}
+							isE := func(v ssa.Value) bool { return isLoadOf(v, entryIdx) != nil }
+							isC := func(v ssa.Value) bool {
+								l := isLoadOf(v, cfgIdx)
+								if l == nil {
+									return false
+								}
+								return isLoadOf(l.X.(*ssa.FieldAddr).X, cfgFld) != nil
+							}
+							if !((isE(bo.X) && isC(bo.Y)) || (isC(bo.X) && isE(bo.Y))) {
+								continue
+							}
+							if t := bb.Succs[0]; len(t.Preds) == 1 && t.Dominates(chLoad.Block()) {
+								tied = true
+							}
+						}
+						ob := Obligation{Rule: id, Construct: keyE, Pos: p.InstrPos(chLoad)}
+						if entryIdx == nil || cfgIdx == nil {
+							ob.Verdict, ob.Detail = AnchorLost, "LogEntry.Index / Configuration.Index not found"
+						} else if tied {
+							ob.Verdict, ob.Detail = Discharged, "r.configurationResponseCh is taken only where entry.Index == r.configuration.Index"
+						} else {
+							ob.Verdict = Violated
+							ob.Detail = "the pending membership future is answered when ANY configuration entry is applied: an older configuration entry applied while the change is pending " +
+								"(a restarted leader whose lastApplied is behind its log) resolves the future successfully before its own entry is committed"
+						}
+						out = append(out, ob)
+					}
 					if chLoad == nil {
 						out = append(out, Obligation{Rule: id, Construct: keyC, Pos: p.InstrPos(c), Verdict: Undecided,
 							Detail: "the channel answered is not a read of r.configurationResponseCh: " + describe(nil, c.Common().Args[0])})
@@ -207,7 +263,8 @@ func ruleConfFuture() *Rule {
 								}
 								emptied := false
 								for _, st := range nilStores {
-									if before(chLoad, st) && before(st, cc) && st.Block().Dominates(cc.Block()) {
+									// whenever the channel is taken the slot is emptied (same block), before the call
+									if before(chLoad, st) && before(st, cc) && (st.Block().Dominates(cc.Block()) || st.Block() == chLoad.Block()) {
 										emptied = true
 									}
 								}
@@ -249,7 +306,20 @@ func ruleConfFuture() *Rule {
 				}
 			}
 			if n == 0 {
-				return missing(id, "respond(…, *r.configuration, nil) in "+fname)
+				applies := ""
+				for _, b := range fn.Blocks {
+					for _, in := range b.Instrs {
+						if c, ok := in.(*ssa.Call); ok && c.Common().StaticCallee() != nil && appliers[c.Common().StaticCallee()] {
+							applies = p.InstrPos(c)
+						}
+					}
+				}
+				if applies == "" {
+					return missing(id, "respond(…, *r.configuration, nil) in "+fname)
+				}
+				return append([]Obligation{{Rule: id, Construct: "the configuration future's success answer goes to the channel pending before the entry was applied, in " + fname, Pos: applies, Verdict: Violated,
+					Detail: "applyLoop applies configuration entries (" + applies + ") but never answers the pending membership future with the configuration in force: a membership change that commits and is applied under its submitter's leadership only times out"}},
+					confFutureFailures(p, id, chFld, cfgFld)...)
 			}
 			out = append(out, confFutureFailures(p, id, chFld, cfgFld)...)
 			out = append(out, confShortcutAndVoters(p, id)...)
